@@ -136,6 +136,52 @@ Proof.
   destruct o; rewrite IH; [apply sent_nodes | reflexivity].
 Qed.
 
+(* the script of the applications is never changed *)
+Lemma schedule_copies_reqs : forall fate it w, w_reqs (schedule_copies fate it w) = w_reqs w.
+Proof.
+  induction fate as [|d r IH]; intros it w; cbn [schedule_copies]; [reflexivity|].
+  rewrite IH. destruct (d =? 0); reflexivity.
+Qed.
+
+Lemma sent_reqs : forall src dst a w, w_reqs (sent src dst a w) = w_reqs w.
+Proof.
+  intros. unfold sent.
+  match goal with |- w_reqs (fold_left ?f (w_injs ?w1) ?w1) = _ =>
+    assert (H : w_reqs w1 = w_reqs w) by (rewrite schedule_copies_reqs; reflexivity);
+    generalize (w_injs w1); generalize dependent w1
+  end.
+  intros w1 H l. revert w1 H.
+  induction l as [|i r IH]; intros w1 H; cbn [fold_left]; [exact H|].
+  apply IH. destruct (i_after i =? w_nframes w); exact H.
+Qed.
+
+Lemma process_tx_reqs : forall outs node peer w, w_reqs (process_tx node peer outs w) = w_reqs w.
+Proof.
+  induction outs as [|o r IH]; intros node peer w; cbn [process_tx]; [reflexivity|].
+  destruct o; rewrite IH; [apply sent_reqs | reflexivity].
+Qed.
+
+Lemma respond_reqs : forall j w, w_reqs (respond j w) = w_reqs w.
+Proof.
+  intros j w. unfold respond.
+  destruct (job_apdu j); [|reflexivity]. destruct (get_node (j_node j) (w_nodes w)); [|reflexivity].
+  destruct (find_tr (j_invoke j) (j_to j) (n_str n) 0) as [[i t]|]; [|reflexivity].
+  destruct (s_confirmation a _) as [st e].
+  destruct e; cbn [w_reqs log]; rewrite process_tx_reqs; reflexivity.
+Qed.
+
+(* the hypothesis of the serving-side theorem: no server application gives parked answers of OTHER requests from inside an
+   indication (that is the application touching other transactions, not the stack) *)
+Definition no_flush (rs : list reqcfg) : Prop := forall r, In r rs -> r_delay r <> -2.
+
+Lemma find_policy_in : forall src dst data rs no0 no r, find_policy src dst data no0 rs = Some (no, r) -> In r rs.
+Proof.
+  induction rs as [|x rest IH]; intros no0 no r H; cbn [find_policy] in H; [discriminate|].
+  destruct ((r_src x =? src) && (r_dst x =? dst) && (zlen data =? r_len x) && list_eqb Z.eqb data (req_payload no0 (r_len x))).
+  - inversion H; subst. left. reflexivity.
+  - right. eapply IH. exact H.
+Qed.
+
 (* the application's answer: only the server transaction (invoke, client) of that node *)
 Lemma respond_ok : forall j w, node_ok_after (j_invoke j) (j_to j) (j_node j) w (respond j w).
 Proof.
@@ -153,28 +199,36 @@ Proof.
   - destruct (h_live st); [eapply others_replace; eauto | eapply others_remove; eauto].
 Qed.
 
-Lemma app_indication_ok : forall node peer x w, node_ok_after (a_invoke x) peer node w (app_indication node peer x w).
+Lemma app_indication_ok : forall node peer x w, no_flush (w_reqs w) ->
+  node_ok_after (a_invoke x) peer node w (app_indication node peer x w) /\ w_reqs (app_indication node peer x w) = w_reqs w.
 Proof.
-  intros node peer x w. unfold app_indication.
-  destruct (negb (a_type x =? 0)); [apply node_ok_refl; reflexivity|].
-  match goal with |- context [find_policy ?a ?b ?c ?d ?e] => destruct (find_policy a b c d e) as [[no r]|] end; cbv beta iota zeta.
-  all: try match goal with |- context [if ?c then _ else _] => destruct c end.
-  all: try (apply node_ok_refl; reflexivity).
-  all: match goal with |- node_ok_after _ _ _ _ (respond ?j ?w0) =>
-         eapply node_ok_trans; [apply (node_ok_refl _ _ _ w w0); reflexivity | apply (respond_ok j w0)] end.
-  all: try (apply node_ok_refl; reflexivity).
+  intros node peer x w Hnf. unfold app_indication.
+  destruct (negb (a_type x =? 0)); [split; [apply node_ok_refl; reflexivity | reflexivity]|].
+  match goal with |- context [find_policy ?a ?b ?c ?d ?e] => destruct (find_policy a b c d e) as [[no r]|] eqn:Hfp end; cbv beta iota zeta.
+  - assert (Hr : r_delay r <> -2) by (apply Hnf; apply find_policy_in in Hfp; exact Hfp).
+    destruct (r_delay r =? 0).
+    + split; [|rewrite respond_reqs; reflexivity].
+      match goal with |- node_ok_after _ _ _ _ (respond ?j ?w0) =>
+        eapply node_ok_trans; [apply (node_ok_refl _ _ _ w w0); reflexivity | apply (respond_ok j w0)] end.
+    + destruct (r_delay r =? -1); [split; [apply node_ok_refl; reflexivity | reflexivity]|].
+      replace (r_delay r =? -2) with false by lia. split; [apply node_ok_refl; reflexivity | reflexivity].
+  - cbn [Z.eqb]. split; [|rewrite respond_reqs; reflexivity].
+    match goal with |- node_ok_after _ _ _ _ (respond ?j ?w0) =>
+      eapply node_ok_trans; [apply (node_ok_refl _ _ _ w w0); reflexivity | apply (respond_ok j w0)] end.
 Qed.
 
-Lemma process_outs_server_ok : forall outs inv node peer w,
+Lemma process_outs_server_ok : forall outs inv node peer w, no_flush (w_reqs w) ->
   (forall x, In (ToApp x) outs -> a_type x = 0 -> a_invoke x = inv) ->
   node_ok_after inv peer node w (process_outs false node peer outs w).
 Proof.
-  induction outs as [|o r IH]; intros inv node peer w H; cbn [process_outs]; [apply node_ok_refl; reflexivity|].
+  induction outs as [|o r IH]; intros inv node peer w Hnf H; cbn [process_outs]; [apply node_ok_refl; reflexivity|].
   destruct o as [x|x].
-  - eapply node_ok_trans; [apply node_ok_refl; apply sent_nodes|]. apply IH. intros y Hy. apply H. right. exact Hy.
-  - eapply node_ok_trans; [|apply IH; intros y Hy; apply H; right; exact Hy].
+  - eapply node_ok_trans; [apply node_ok_refl; apply sent_nodes|].
+    apply IH; [rewrite sent_reqs; exact Hnf | intros y Hy; apply H; right; exact Hy].
+  - destruct (app_indication_ok node peer x w Hnf) as (Hok & Hrq).
+    eapply node_ok_trans; [|apply IH; [rewrite Hrq; exact Hnf | intros y Hy; apply H; right; exact Hy]].
     destruct (a_type x =? 0) eqn:Et.
-    + rewrite <- (H x (or_introl eq_refl)) by lia. apply app_indication_ok.
+    + rewrite <- (H x (or_introl eq_refl)) by lia. exact Hok.
     + unfold app_indication. rewrite Et. cbn [negb]. apply node_ok_refl. reflexivity.
 Qed.
 
@@ -207,10 +261,10 @@ Definition ctx_ok (t : ssm) : Prop := forall c, s_ctx t = Some c -> a_invoke c =
 Lemma deliver_server_only_match : forall src dst a w n,
   to_client_side a = false -> (a_type a = 0 \/ a_type a = 4 \/ a_type a = 7) ->
   get_node dst (w_nodes w) = Some n ->
-  (forall t, In t (n_str n) -> ctx_ok t) ->
+  (forall t, In t (n_str n) -> ctx_ok t) -> no_flush (w_reqs w) ->
   node_ok_after (a_invoke a) src dst w (deliver src dst a w).
 Proof.
-  intros src dst a w n Hc Hty Hn Hctx. pose proof (get_node_addr _ _ _ Hn) as Haddr.
+  intros src dst a w n Hc Hty Hn Hctx Hnf. pose proof (get_node_addr _ _ _ Hn) as Haddr.
   unfold deliver. rewrite Hn. destruct (c_raw (n_cfg n)); [apply node_ok_refl; reflexivity|].
   (* the handler run on an entry (i, t) of the server table of the node n1 stored in world w1 *)
   assert (Hrun : forall w1 n1 i t,
@@ -237,7 +291,7 @@ Proof.
       set (w1 := set_tctr (h_ctr st) (set_nodes (put_node (mkN (n_cfg n) (n_next n) (n_ctr n) l') (w_nodes w)) w)).
       assert (H1 : node_ok_after (a_invoke a) src dst w w1) by (eapply put_str_ok; [exact Hn | reflexivity | exact Ho]).
       assert (H2 : node_ok_after (a_invoke a) src dst w1 (process_outs false (c_addr (n_cfg n)) (s_peer t) (rev (h_outs st)) w1)).
-      { rewrite Haddr, <- Hp. apply process_outs_server_ok. intros x Hx Htx. apply in_rev in Hx.
+      { rewrite Haddr, <- Hp. apply process_outs_server_ok; [exact Hnf|]. intros x Hx Htx. apply in_rev in Hx.
         destruct (Hto x eq_refl Hx Htx) as [H|(c & Hc1 & Hc2)]; [exact H|].
         rewrite Hc2. rewrite (Hctx t (nth_error_In _ _ Hnth) c Hc1). lia. }
       destruct e; [eapply node_ok_trans; [eapply node_ok_trans; [exact H1 | exact H2] | apply node_ok_refl; reflexivity]
@@ -262,7 +316,7 @@ Proof.
           cbn [w_nodes set_tctr set_nodes]. rewrite put_put by reflexivity. reflexivity. }
         eapply node_ok_trans; [exact H1|]. rewrite Haddr.
         replace (s_peer t0) with src by reflexivity.
-        apply process_outs_server_ok. intros x Hx Htx. apply in_rev in Hx.
+        apply process_outs_server_ok; [exact Hnf|]. intros x Hx Htx. apply in_rev in Hx.
         destruct (Hto x eq_refl Hx Htx) as [H|(c & Hc1 & _)]; [exact H | discriminate Hc1]. }
       destruct e; [eapply node_ok_trans; [exact HW | apply node_ok_refl; reflexivity] | exact HW].
   - replace (a_type a =? 1) with false by lia. rewrite Hc.
@@ -289,7 +343,7 @@ Proof.
     set (w1 := set_tctr (h_ctr st) (set_nodes (put_node (mkN (n_cfg n) (n_next n) (n_ctr n) l') (w_nodes w)) w)).
     assert (H1 : node_ok_after (a_invoke a) src dst w w1) by (eapply put_str_ok; [exact Hn | reflexivity | exact Ho]).
     assert (H2 : node_ok_after (a_invoke a) src dst w1 (process_outs false (c_addr (n_cfg n)) (s_peer t) (rev (h_outs st)) w1)).
-    { rewrite Haddr, <- Hp. apply process_outs_server_ok. intros x Hx Htx. apply in_rev in Hx.
+    { rewrite Haddr, <- Hp. apply process_outs_server_ok; [exact Hnf|]. intros x Hx Htx. apply in_rev in Hx.
       destruct (Hto x eq_refl Hx Htx) as [H|(c & Hc1 & Hc2)]; [exact H|].
       rewrite Hc2. rewrite (Hctx t (nth_error_In _ _ Hnth) c Hc1). lia. }
     destruct e; [eapply node_ok_trans; [eapply node_ok_trans; [exact H1 | exact H2] | apply node_ok_refl; reflexivity]
